@@ -138,7 +138,7 @@ pub fn c11(ctx: &mut Ctx) {
         let c2 = bu(&cfg["traces"]["interaction"]["n_columns"]).unwrap().try_into().unwrap();
         bases.push((l.file.trim_start_matches("/repo/examples/proofs/").to_string(), cfg, c1, c2));
     }
-    let n_syn = if ctx.is_quick() { 40 } else { 600 };
+    let n_syn = if ctx.is_quick() { 300 } else { 3000 };
     for i in 0..n_syn {
         let mut rng = Rng::derive(ctx.seed, "c11.synthetic", i);
         let p = crate::toyprover::ToyParams::draw(&mut rng, false);
@@ -290,7 +290,7 @@ fn felt_u64(f: &Felt) -> Option<u64> {
 
 pub fn c10(ctx: &mut Ctx) {
     let scenario = "c10.queries";
-    let n_inst: u64 = if ctx.is_quick() { 3000 } else { 60_000 };
+    let n_inst: u64 = if ctx.is_quick() { 30_000 } else { 400_000 };
     for k in 0..n_inst {
         if !ctx.mine(k) {
             continue;
